@@ -315,7 +315,7 @@ fn normal_pos() -> impl Strategy<Value = f32> {
 pub fn strategy() -> BoxedStrategy<Case> {
     prop_oneof![
         2 => prop::collection::vec((0x0080_0000u32..0x7F80_0000, any::<bool>()).prop_map(|(b, s)| f32::from_bits(b | if s { 0x8000_0000 } else { 0 })), 1..256).prop_map(Case::Cbrt),
-        3 => (prop::collection::vec((normal_pos(), prop_oneof![(-80.0f32..=80.0), (0usize..12).prop_map(|i| LIB_EXPONENTS[i]), (-3.0f32..3.0)]), 1..256), any::<u64>()).prop_map(|(mut v, seed)| {
+        3 => (prop::collection::vec((normal_pos(), prop_oneof![3 => (-80.0f32..=80.0), 2 => (0usize..12).prop_map(|i| LIB_EXPONENTS[i]), 2 => (-3.0f32..3.0), 2 => (-80i32..=80).prop_map(|i| i as f32), 1 => (-160i32..=160).prop_map(|i| i as f32 * 0.5)]), 1..256), any::<u64>()).prop_map(|(mut v, seed)| {
             // related neighbours: keep x or y of the previous pair in a third of the positions
             let mut e = Expand(seed);
             for i in 1..v.len() {
@@ -478,4 +478,4 @@ pub fn replay(v: &Value) -> Result<(), String> {
     check(&case_from_json(v).ok_or("bad case")?, &mut Stats::new()).map_err(|v| v.message)
 }
 
-pub const RULE: &str = "cases = batches for one of: cbrtf (normal f32, both signs), powf ((x,y): x positive normal uniform in bit pattern / at exponent boundaries +-4 ulp / in (0,1) / near 1; y in [-80,80], the 12 exponents the library uses, small y), expf ([-85,85], [89,1e38], [-1e38,-88], arbitrary bits), totality (all 24x24 pairs of special values, random bit patterns for both arguments of cbrtf/powf/expf) generated by proptest, plus strided (quick) or complete (thorough) enumerations: cbrtf over all normal magnitudes, powf over all positive normal x for each library exponent, expf over all 2^32 patterns; interleaved repeated calls must reproduce the first result bitwise (purity); oracle = f64 libm with the statement's bounds (builds without fastmath: 2 ulp of libm); a panic (incl. the verif hook before to_int_unchecked) is a violation; non-trivial = batch with at least one compared value; distinct = by hash of argument bits";
+pub const RULE: &str = "cases = batches for one of: cbrtf (normal f32, both signs), powf ((x,y): x positive normal uniform in bit pattern / at exponent boundaries +-4 ulp / in (0,1) / near 1; y in [-80,80], every whole and half number of that range, the 12 exponents the library uses, small y), expf ([-85,85], [89,1e38], [-1e38,-88], arbitrary bits), totality (all 24x24 pairs of special values, random bit patterns for both arguments of cbrtf/powf/expf) generated by proptest, plus strided (quick) or complete (thorough) enumerations: cbrtf over all normal magnitudes, powf over all positive normal x for each library exponent, expf over all 2^32 patterns; interleaved repeated calls must reproduce the first result bitwise (purity); oracle = f64 libm with the statement's bounds (builds without fastmath: 2 ulp of libm); a panic (incl. the verif hook before to_int_unchecked) is a violation; non-trivial = batch with at least one compared value; distinct = by hash of argument bits";
